@@ -33,7 +33,9 @@ MANIFEST = {
             "software name and every mapping the value read is the declared one) and C20_live_attribute_per_class; only pydantic's "
             "handling of the schema's keyword arguments is trusted. SPECIFICATION: `declared` is the closed form of the loader; "
             "`spec` (software = the SET of names each with the options of the last entry naming it; NIC number k carries the entry "
-            "under key k) shares no helper with the loader model and C20_declared_meets_spec / C20_build_meets_spec prove them equal up "
+            "under key k; ACLs position by position - the rule the file lists under key p, else ARP at 22 / ICMP at 23 on a router, "
+            "else nothing, with the documented implicit actions; router port k carries the address under key k; users and "
+            "folders/files by name) shares no helper with the loader model and C20_declared_meets_spec / C20_build_meets_spec prove them equal up "
             "to the order of software (C20_software_meets_spec for EVERY node entry; C20_nics_by_key). Also: C20_software_one_instance_"
             "per_name, C20_software_initial_state (every node entry, well-formed or not), C20_key_order_irrelevant (every mapping incl. "
             "airspace capacities; one lemma per mapping-iteration site of the regenerated site inventory), C20_schedule_assembles/"
